@@ -7,7 +7,7 @@ from . import common, fragrun
 
 LEVEL = "exploration"
 RULE = ("generated programs whose binding structure is known to the generator (top-level variables, function parameters that "
-        "shadow them, inner local bindings, lambda parameters, default arguments that refer to outer variables, closures, and "
+        "shadow them, inner local bindings, lambda parameters, default arguments that refer to outer variables, a call that passes a parameter by keyword, closures, and "
         "string literals - with escapes, Unicode and the variable's own name - before a reference on the same line). For every "
         "binding and every one of its occurrences a rename to a fresh identifier is requested from the real server (`vh els-rename`). "
         "Oracle: the returned WorkspaceEdit changes exactly the definition and the references of that binding (positions in UTF-16 "
@@ -93,7 +93,9 @@ def generate(seed):
     P.add([(g, "def"), " = (", (lp, "def"), ": Int) -> ", (lp, "ref"), " + ", (b, "ref")], pre(pool[1]))
     c = bind(pool[3], "top-variable")
     P.add([(c, "def"), " = f1(", (a, "ref"), ") + f2(", (b, "ref"), ") + f3(", (a, "ref"), ") + ", (g, "ref"), "(", (a, "ref"), ")"], pre(pool[0]))
-    P.add(["print! ", (a, "ref"), ", ", (b, "ref"), ", ", (c, "ref")], pre(pool[3]))
+    kw = bind("kw_", "top-variable")
+    P.add([(kw, "def"), " = f3(1, ", (pk, "kwarg-name"), " := 2)"])
+    P.add(["print! ", (a, "ref"), ", ", (b, "ref"), ", ", (c, "ref"), ", ", (kw, "ref")], pre(pool[3]))
     P.add(['print! "', P.names[a], ' ', P.names[b], '"'])
     return P
 
@@ -205,7 +207,7 @@ def judge(ctx, rep, r):
 
 
 def run(ctx, rep):
-    n = ctx.n(6, 300)
+    n = ctx.n(6, 40)
     cases = [{"seed": f"C30:{ctx.seed}:{i}"} for i in range(n)]
     for r in common.pmap(lambda c: one(ctx, c), cases):
         judge(ctx, rep, r)
